@@ -20,6 +20,7 @@ pub mod c13;
 pub mod c15;
 pub mod c16;
 pub mod c18;
+pub mod replay;
 
 pub struct StageOut {
     pub property: String,
@@ -55,6 +56,7 @@ pub fn dispatch(ctx: &Ctx) -> StageOut {
         "c16" => c16::run(ctx),
         "c18" => c18::run(ctx),
         "advgen" => c18::run_advgen(ctx),
+        "replay" => replay::run(ctx),
         "c12os" => c12::run_os_calls(ctx),
         other => {
             eprintln!("unknown stage {other}");
